@@ -539,14 +539,17 @@ class Register(wiring.Component):
         m = Module()
 
         field_start = 0
+        field_names = set()
 
         for field_path, field in self:
             field_width = Shape.cast(field.port.shape).width
             field_slice = slice(field_start, field_start + field_width)
 
-            if field_path:
-                m.submodules["__".join(str(key) for key in field_path)] = field
-            else: # avoid empty name for a single un-named field
+            field_name = "__".join(str(key) for key in field_path)
+            if field_name and field_name not in field_names:
+                field_names.add(field_name)
+                m.submodules[field_name] = field
+            else: # avoid an empty name (single un-named field) or a name that is already taken
                 m.submodules += field
 
             if field.port.access.readable():
@@ -792,8 +795,14 @@ class Bridge(wiring.Component):
         m = Module()
 
         m.submodules.mux = self._mux
+        submodule_names = {"mux"}
         for reg, reg_name, _ in self.bus.memory_map.resources():
-            m.submodules["__".join(str(part) for part in reg_name)] = reg
+            submodule_name = "__".join(str(part) for part in reg_name)
+            if submodule_name not in submodule_names:
+                submodule_names.add(submodule_name)
+                m.submodules[submodule_name] = reg
+            else: # distinct register names may be joined to the same submodule name
+                m.submodules += reg
 
         connect(m, flipped(self.bus), self._mux.bus)
 
